@@ -80,7 +80,7 @@ def write_input_file(case, path=None, names=None, layout='case'):
     return path
 
 
-def execute(case, budget=6000, cpu_s=20.0, sched=None, names=None, prompt=None, refuse_at='case',
+def execute(case, budget=6000, cpu_s=3.0, sched=None, names=None, prompt=None, refuse_at='case',
             layout='case', requested=None):
     """Run one case at solver level (real Solver, real InputStore on a real file)."""
     classes, enums = synth.build_classes(case['world'])
@@ -107,6 +107,7 @@ def execute(case, budget=6000, cpu_s=20.0, sched=None, names=None, prompt=None, 
     pf = seams.solver_prompt(rec, answer) if prompt else None
     req = case['requested'] if requested is None else requested
     run.requested, run.field_names = list(req), list(case['field_names'])
+    run.prompting = bool(prompt)
     with seams.installed(rec), core.cpu_alarm(cpu_s):
         s = hb_solver.Solver(store, classes, prompt=pf)
         try:
@@ -307,6 +308,10 @@ def judge_common(run, r1):
             out.append(F('C01', 'C01.b', 'blocked-not-named',
                          f'blocked lines {sorted(need - named)} not named in the diagnostics'))
 
+    if returned and getattr(run, 'prompting', False) and not m.refused and run.unmet_in:
+        out.append(F('C05', 'P1', 'inputs-left-unasked',
+                     f'the user was answering every question and never refused, yet the run ended with inputs '
+                     f'{sorted(run.unmet_in)[:5]} reported as not supplied (never asked for)'))
     if returned:
         flat = flat_solution(run)
         # ---- C06: no lost waiter => everything the model can compute was computed ----
@@ -327,7 +332,7 @@ def judge_common(run, r1):
             if uf != {k: set(v) for k, v in r1.blocked.items()}:
                 out.append(F('C05', 'C05.model', 'unmet-fields', f'unmet fields {run.unmet_f} model {r1.summary()["blocked"]}'))
         # ---- C04.model ----
-        if run.outcome == 'solved' and r1.verdict == 'solved' and set(flat) != set(r1.demanded):
+        if run.outcome == 'solved' and r1.verdict != 'abort' and set(flat) != set(r1.demanded):
             out.append(F('C04', 'C04.model', 'closure',
                          f'solution lines differ from the demand closure: extra {sorted(set(flat) - r1.demanded)[:6]} '
                          f'missing {sorted(r1.demanded - set(flat))[:6]}'))
@@ -361,8 +366,8 @@ def judge_synth(case, run, r1):
                 prop = 'C12' if st[0] != nv[0] else 'C03'
                 out.append(F(prop, f'{prop}.stored', 'stored-differs',
                              f'{q}: evaluation returned {st}, re-derivation gives {nv}'))
-    # ---- C04: closure (successful solves) ----
-    if run.outcome == 'solved' and r1.verdict == 'solved':
+    # ---- C04: closure (whenever success is reported) ----
+    if run.outcome == 'solved' and r1.verdict != 'abort':
         flat = flat_solution(run)
         hist = closure_from_history(case, run)
         if hist is not None and set(flat) != hist:
@@ -485,7 +490,7 @@ def execute_cli(case, cli=None, budget=6000, names=None, path=None, solution_pat
 
 
 def cli_session(year, requested, path, answer, sched, cli, supplied0, year_forms=None, dup=False, budget=6000,
-                solution_path=None, cpu_s=60.0):
+                solution_path=None, cpu_s=None):
     """One `habutax solve` invocation in-process with scripted stdin."""
     d = scratch_dir()
     m = mon.Monitor(supplied=supplied0, dup_demand=dup)
@@ -514,12 +519,14 @@ def cli_session(year, requested, path, answer, sched, cli, supplied0, year_forms
         if os.path.exists(solution_path):
             os.remove(solution_path)
         argv += ['--solution', solution_path]
-    kind, exc, out = run_cli(argv, stdin=stdin, rec=rec, year_forms=year_forms, cpu_s=cpu_s)
+    kind, exc, out = run_cli(argv, stdin=stdin, rec=rec, year_forms=year_forms,
+                             cpu_s=cpu_s or (3.0 if year_forms else 30.0))
     run = RealRun()
     run.rec, run.monitor, run.stdout, run.kind = rec, m, out, kind
     run.stdin_log = stdin.log
     run.stdin_calls = stdin.calls
     run.requested, run.field_names = list(requested), []
+    run.prompting = bool(cli.get('prompt'))
     run.argv = argv
     if kind == 'return':
         if '\nSuccessfully solved!' in out:
